@@ -428,3 +428,14 @@ Lemma welch_p_swap_clip_differs :
   (* H = 32, clip [1, 60]: c = 2 (t far in the lower tail), swapped 62 -> clipped to 60 *)
   p_of_cdf 32 1 60 (Some 2) = 4 /\ p_of_cdf 32 1 60 (Some (2 * 32 - 2)) = 8.
 Proof. split; vm_compute; reflexivity. Qed.
+
+(* the pairs computed from the statistics meet pair_wf (the hypothesis of the per-pair theorems) *)
+Lemma stats_pair_wf D S H lo hi T b cdfs s1 s2 x :
+  stats_pair D S H lo hi T b cdfs s1 s2 = POk x -> pair_wf x.
+Proof.
+  intros Hx. destruct (stats_pair_inv _ _ _ _ _ _ _ _ _ _ _ Hx) as (l1 & l2 & gi & _ & _ & L12 & L1c & Egi & ->).
+  unfold pair_wf. cbn [pi_p pi_scores pi_mean1 pi_mean2].
+  pose proof (opt_list_length _ _ Egi) as Lg. rewrite map_length, combine_length in Lg.
+  unfold welch_pvalues, welch_genes. rewrite !map_length, !combine_length, map_length, combine_length.
+  repeat split; lia.
+Qed.
